@@ -921,6 +921,46 @@ impl Child {
     }
 }
 
+/// String literals harvested from the source of the decision code in /repo's working tree (the
+/// "auto dictionary" of fuzzers): any string the probes compare against is a candidate value for
+/// every variable, so a value that some probe starts to treat specially is tried without having
+/// to be guessed.  Read once per process; empty when the sources cannot be read.
+pub fn harvested() -> &'static Vec<String> {
+    static H: std::sync::OnceLock<Vec<String>> = std::sync::OnceLock::new();
+    H.get_or_init(|| {
+        let mut out: Vec<String> = Vec::new();
+        for f in [
+            "/repo/crates/anstyle-query/src/lib.rs",
+            "/repo/crates/anstream/src/auto.rs",
+            "/repo/crates/colorchoice/src/lib.rs",
+            "/repo/crates/colorchoice-clap/src/lib.rs",
+        ] {
+            let Ok(text) = std::fs::read_to_string(f) else { continue };
+            for line in text.lines() {
+                let code = line.trim_start();
+                if code.starts_with("//") {
+                    continue;
+                }
+                let mut rest = code;
+                while let Some(a) = rest.find('"') {
+                    let tail = &rest[a + 1..];
+                    let Some(b) = tail.find('"') else { break };
+                    let lit = &tail[..b];
+                    if !lit.is_empty() && lit.len() <= 24 && !lit.contains('\\') && !lit.contains('{') && lit.chars().all(|c| c.is_ascii_graphic() || c == ' ') {
+                        let l = lit.to_string();
+                        if !VALUES.contains(&lit) && !VARS.contains(&lit) && !out.contains(&l) {
+                            out.push(l);
+                        }
+                    }
+                    rest = &tail[b + 1..];
+                }
+            }
+        }
+        out.truncate(64);
+        out
+    })
+}
+
 fn gen_value(rng: &mut Rng, var: usize) -> String {
     // biased to the values the property's cross product lists for this variable
     let listed: &[&str] = match var {
@@ -931,6 +971,8 @@ fn gen_value(rng: &mut Rng, var: usize) -> String {
     };
     if rng.chance(3, 4) {
         (*rng.pick(listed)).to_string()
+    } else if !harvested().is_empty() && rng.chance(1, 4) {
+        rng.pick(harvested()).clone()
     } else {
         (*rng.pick(&VALUES)).to_string()
     }
@@ -1158,6 +1200,33 @@ fn sweep(child: &mut Child, seed: u64) -> (u64, Option<(Vec<EOp>, EViolation)>) 
         let r = child.run_history(&ops, false);
         if let Some(v) = r.violation {
             return (count, Some((ops, v)));
+        }
+    }
+    // dictionary pass: every variable x every dictionary word (the fixed list plus the literals
+    // harvested from the decision code) x {terminal, not a terminal}, everything else unset,
+    // global Auto: the decision for every stream kind and every probe against the model
+    let mut words: Vec<String> = VALUES.iter().map(|s| s.to_string()).collect();
+    words.extend(harvested().iter().cloned());
+    for var in 0..VARS.len() {
+        for w in &words {
+            for tty in [true, false] {
+                let mut ops = vec![EOp::Global(0)];
+                for i in 0..VARS.len() {
+                    ops.push(if i == var { EOp::Set(i, w.clone()) } else { EOp::Unset(i) });
+                }
+                ops.push(EOp::Retarget(1, tty));
+                ops.push(EOp::Retarget(2, tty));
+                let kinds: &[Sk] = if tty { &[Sk::PtyFile, Sk::BoxPtyFile, Sk::Stdout, Sk::StderrLock] } else { &[Sk::TmpFile, Sk::Vec, Sk::BoxDyn, Sk::Stderr, Sk::StdoutLock] };
+                for k in kinds {
+                    ops.push(EOp::Choice(*k));
+                }
+                ops.push(EOp::Query);
+                count += 1;
+                let r = child.run_history(&ops, false);
+                if let Some(v) = r.violation {
+                    return (count, Some((ops, v)));
+                }
+            }
         }
     }
     (count, None)
@@ -1600,6 +1669,29 @@ pub fn c17std_main(report: &str) -> i32 {
                     if let Err(detail) = c17std_one(&fds, handle, fg, bg, data) {
                         violation = json!({"handle": handle, "fg": fg, "bg": bg, "data_index": k, "data_hex": crate::trace::hex(data), "detail": detail});
                         break 'outer;
+                    }
+                }
+            }
+        }
+    }
+    // frame-size thresholds: a frame is <codes><data><reset>, so a buffer of size T inside a
+    // stream impl shows at data lengths a little *below* T.  Scan the lengths around the usual
+    // buffer sizes on every std handle, with short and long colour codes.
+    if violation.is_null() {
+        let pattern: Vec<u8> = (0..70_000u32).map(|i| if i % 61 == 60 { b'\n' } else { b'A' + (i % 26) as u8 }).collect();
+        'scan: for handle in 0..4u8 {
+            for t in [512usize, 1024, 4096, 8192, 16384, 65536] {
+                for len in t - 24..=t + 2 {
+                    for (fg, bg) in [(3u8, 0u8), (2, 5), (10, 13)] {
+                        evals += 1;
+                        let mut data = pattern[..len].to_vec();
+                        if len % 3 == 0 {
+                            *data.last_mut().unwrap() = b'\n';
+                        }
+                        if let Err(detail) = c17std_one(&fds, handle, fg, bg, &data) {
+                            violation = json!({"handle": handle, "fg": fg, "bg": bg, "data_index": 99, "data_hex": "", "data_len": len, "detail": detail});
+                            break 'scan;
+                        }
                     }
                 }
             }
